@@ -9,6 +9,7 @@ import (
 	"io"
 	"log"
 	"math/rand"
+	"net"
 	"net/http"
 	"net/http/httptest"
 	"os"
@@ -360,7 +361,29 @@ func run(c *harness.Ctx, i int) {
 				defer srv.Close()
 			}
 			srvLog.Reset()
+			rawCL := rng.Intn(2) == 0
+			var claimed uint64
+			if rawCL {
+				claimed, _ = sizeValue(rng)
+				claimed &= 1<<62 - 1
+			}
 			r = measure(func() string {
+				if rawCL {
+					// raw request: the announced length is unrelated to what is sent
+					conn, err := net.DialTimeout("tcp", strings.TrimPrefix(srv.URL, "http://"), 5*time.Second)
+					if err != nil {
+						return "error"
+					}
+					defer conn.Close()
+					conn.SetDeadline(time.Now().Add(10 * time.Second))
+					fmt.Fprintf(conn, "PUT /x.caibx HTTP/1.1\r\nHost: x\r\nConnection: close\r\nContent-Length: %d\r\n\r\n", claimed)
+					conn.Write(in[:min(len(in), 200)])
+					if tc, ok := conn.(*net.TCPConn); ok {
+						tc.CloseWrite()
+					}
+					io.Copy(io.Discard, conn)
+					return "error"
+				}
 				req, _ := http.NewRequest("PUT", srv.URL+"/x.caibx", bytes.NewReader(in))
 				resp, err := http.DefaultClient.Do(req)
 				if err != nil {
